@@ -53,6 +53,10 @@ type ccase struct {
 	PerPhase   int    `json:"lines_per_phase"`
 	PaceEvery  int    `json:"pace_every"`
 	HookDelay  bool   `json:"hook_delays"`
+	// Aligned: fixed-width lines and a spool segment limit that is a multiple of the record size, so that
+	// records end exactly on the segment limit (the disk queue's rollover boundary)
+	Aligned  bool `json:"aligned_records"`
+	MaxBytes int  `json:"spoolmaxbytesperfile"`
 }
 
 // schedules: U = endpoint up, D = down; traffic flows during every letter and across every transition.
@@ -73,6 +77,10 @@ func gen(idx int) ccase {
 	c.PerPhase = mon.N(2500, 6000)
 	c.PaceEvery = r.PickInt([]int{20, 50, 200})
 	c.HookDelay = !r.Chance(1, 5)
+	c.MaxBytes = 200000
+	if r.Chance(1, 3) {
+		c.Aligned = true
+	}
 	return c
 }
 
@@ -131,9 +139,13 @@ func runCase(res *mon.Result, c ccase, dir string) {
 	}
 	defer ep.Close()
 	t := mon.NewTable("none", "none", false, dir)
+	if c.Aligned {
+		lineLen := len(fmt.Sprintf("c07.%d.m%07d %07d %d", c.Index, 1, 1, 1600000000))
+		c.MaxBytes = (4 + lineLen) * (3 + c.Index%40) // every k-th record ends exactly on the segment limit
+	}
 	key := fmt.Sprintf("c07r%ds%d", c.Index, mon.Seed())
-	cmd := fmt.Sprintf("addRoute sendAllMatch %s  %s spool=true flush=%d reconn=%d connbuf=%d iobuf=%d spoolbuf=%d spoolsyncevery=%d spoolsyncperiod=200 spoolsleep=%d unspoolsleep=%d spoolmaxbytesperfile=200000",
-		key, ep.Addr, c.Flush, c.Reconn, c.ConnBuf, c.IoBuf, c.SpoolBuf, c.SyncEvery, c.SpoolSleep, c.Unspool)
+	cmd := fmt.Sprintf("addRoute sendAllMatch %s  %s spool=true flush=%d reconn=%d connbuf=%d iobuf=%d spoolbuf=%d spoolsyncevery=%d spoolsyncperiod=200 spoolsleep=%d unspoolsleep=%d spoolmaxbytesperfile=%d",
+		key, ep.Addr, c.Flush, c.Reconn, c.ConnBuf, c.IoBuf, c.SpoolBuf, c.SyncEvery, c.SpoolSleep, c.Unspool, c.MaxBytes)
 	w := map[string]interface{}{"case": c, "route_cmd": cmd}
 	if err := mon.Apply(t, cmd); err != nil {
 		res.Violate("harness-setup", err.Error(), w)
@@ -162,6 +174,9 @@ func runCase(res *mon.Result, c ccase, dir string) {
 		for i := 0; i < n; i++ {
 			id := atomic.AddInt64(&seq, 1)
 			line := []byte(fmt.Sprintf("%sm%d %d %d", prefix, id, id, 1600000000+id%50000))
+			if c.Aligned {
+				line = []byte(fmt.Sprintf("%sm%07d %07d %d", prefix, id, id, 1600000000+id%50000))
+			}
 			rt.Dispatch(line)
 			if i%c.PaceEvery == 0 {
 				time.Sleep(200 * time.Microsecond)
@@ -315,10 +330,12 @@ func (cl *collector) collect(ep *mon.Endpoint) (map[string]bool, string) {
 			if ok {
 				id := strings.TrimPrefix(f[0], cl.prefix)
 				var n int64
-				if _, err := fmt.Sscanf(id, "m%d", &n); err != nil || f[1] != fmt.Sprint(n) || f[2] != fmt.Sprint(1600000000+n%50000) {
+				var v int64
+				_, e2 := fmt.Sscanf(f[1], "%d", &v)
+				if _, err := fmt.Sscanf(id, "m%d", &n); err != nil || e2 != nil || v != n || f[2] != fmt.Sprint(1600000000+n%50000) {
 					ok = false
 				} else {
-					cl.set[id] = true
+					cl.set[fmt.Sprintf("m%d", n)] = true
 				}
 			}
 			if !ok && cl.malformed == "" {
